@@ -112,13 +112,13 @@ func c17RelayReg(covert string, phantom, client net.IP) *DecoyRegistration {
 }
 
 // the logger the connection handler builds for a tunnel: stdout, date + microseconds, the package's default level
-func c17RelayLogger() *log.Logger {
-	return log.New(os.Stdout, "[MIN] c17relay ", golog.Ldate|golog.Lmicroseconds)
+func c17RelayLogger(reg *DecoyRegistration) *log.Logger {
+	return log.New(os.Stdout, "[MIN] "+reg.IDString()+" ", golog.Ldate|golog.Lmicroseconds)
 }
 
 func c17ProxyDone(rec *kit.Rec, desc string, reg *DecoyRegistration, conn net.Conn, onStuck func()) {
 	done := make(chan struct{})
-	go func() { Proxy(reg, conn, c17RelayLogger()); close(done) }()
+	go func() { Proxy(reg, conn, c17RelayLogger(reg)); close(done) }()
 	select {
 	case <-done:
 	case <-time.After(60 * time.Second):
@@ -258,13 +258,36 @@ func TestVerifC17Relay(t *testing.T) {
 	}
 	patterns := []string{"client-rst-while-upload-parked,covert-eof", "covert-rst-while-download-parked,client-eof", "client-rst+covert-eof-at-once", "covert-rst+client-eof-at-once",
 		"client-halfclose-then-covert-halfclose", "covert-halfclose-then-client-halfclose", "client-rst+covert-rst"}
+	v6Base := 0
+	if b, err := os.ReadFile("/proc/sys/net/ipv4/ip_local_port_range"); err == nil {
+		var lo, hi int
+		if k, _ := fmt.Sscan(string(b), &lo, &hi); k == 2 && lo >= 26000 {
+			v6Base = 21000
+		}
+	}
+	if v6Base == 0 {
+		rec.Note("real-tcp v6 cases skipped: the local port range does not leave room below it for the station-side listener")
+	}
 	fams := []struct{ name, listen, bind string }{{"v4", "127.0.0.1:0", clientV4}, {"v6", "[::1]:0", "::1"}}
 	for r := 0; r < kit.Tier(2, 12); r++ {
 		for _, fam := range fams {
 			for _, pat := range patterns {
 				n++
 				desc := fmt.Sprintf("#%d relay real-tcp client=%s pattern=%s", n, fam.name, pat)
-				sconn, cconn, err := c17Pair(fam.listen, fam.bind)
+				listen := fam.listen
+				if fam.name == "v6" {
+					// the needle of a v6 case is "[::1]:<client port>" and stays in force for the rest of the output: the station's
+					// own end of a later connection must never coincide with it, so the station side listens below the range the
+					// kernel takes client ports from
+					if v6Base == 0 {
+						continue
+					}
+					listen = fmt.Sprintf("[::1]:%d", v6Base+n%1000)
+				}
+				sconn, cconn, err := c17Pair(listen, fam.bind)
+				for try := 1; err != nil && fam.name == "v6" && try < 5; try++ { // the port may be taken by another process
+					sconn, cconn, err = c17Pair(fmt.Sprintf("[::1]:%d", v6Base+n%1000+try*1000), fam.bind)
+				}
 				if err != nil {
 					rec.Note("cannot build a " + fam.name + " loopback pair: " + err.Error())
 					continue
@@ -293,7 +316,6 @@ func TestVerifC17Relay(t *testing.T) {
 					defer tc.Close()
 					switch pat {
 					case "client-rst-while-upload-parked,covert-eof":
-						tc.SetReadBuffer(4096)
 						<-covertGo // reads nothing until the client has reset
 						tc.CloseWrite()
 						time.Sleep(150 * time.Millisecond) // the download direction sees the end of stream while the upload is still parked
@@ -331,14 +353,12 @@ func TestVerifC17Relay(t *testing.T) {
 					defer close(covertGo)
 					switch pat {
 					case "client-rst-while-upload-parked,covert-eof":
-						cconn.SetWriteBuffer(16 << 10)
 						sent := c17Flood(cconn) // until nothing moves any more: the station's upload direction is parked in its write
 						rec.Count("bytes_sent_until_parked", sent)
 						cconn.SetLinger(0)
 						cconn.Close() // RST
 						time.Sleep(20 * time.Millisecond)
 					case "covert-rst-while-download-parked,client-eof":
-						cconn.SetReadBuffer(4096)
 						cconn.Write([]byte("client-hello"))
 						select { // the covert floods and resets while this side reads nothing
 						case <-covertActed:
